@@ -606,6 +606,10 @@ func (e *mcEngine) run(notaryOff bool) {
 	nAlpha := 1 + Pick(t, "nAlpha", 7)
 	e.sameKeys = Chance(t, "sameKeys", 20)
 	ns := []int{1, 3, 4, 7}
+	if !Thorough() && Chance(t, "rareN", 12) {
+		// sizes with 3k+2 members and the larger even one, now and then
+		ns = []int{2, 5, 6}
+	}
 	if Thorough() {
 		ns = []int{1, 3, 4, 7, 2, 5, 6}
 	}
@@ -2065,6 +2069,10 @@ type mcFsEngine struct {
 func (e *mcFsEngine) run() {
 	t := e.r.T
 	ns := []int{1, 3, 4, 7}
+	if !Thorough() && Chance(t, "rareN", 12) {
+		// sizes with 3k+2 members and the larger even one, now and then
+		ns = []int{2, 5, 6}
+	}
 	if Thorough() {
 		ns = []int{1, 3, 4, 7, 2, 5, 6}
 	}
